@@ -491,6 +491,7 @@ REQUIRED_THEOREMS = [
     "Cv.C04.infNormL_real", "Cv.C04.infNormL_panics", "Cv.C04.matInfNorm_real",
     "Cv.C04.powi_two_of", "Cv.C04.powi_three_of", "Cv.C04.vpowi_eq_map_powi_of", "Cv.C04.vecMapI_eq_map_powi_of",
     "Cv.C04.matMapI_eq_map_powi_of", "Cv.C04.matrix_op_mismatch",
+    "Cv.C04.logsumexpE_nil", "Cv.C04.logsumexpE_of_ne", "Cv.C04.logsumexpE_real",
 ]
 RULE = ("all lengths 0..40 x {4 operators x every one of the 11 operator forms of Vector and of Matrix (owned/borrowed, vector, "
         "scalar-left, scalar-right, assign; all 11 in both tiers), negation, 29 unary maps, powi (exponents 0,1,2,3,-1,-2,5,..), powf, 7 reductions}, "
@@ -514,12 +515,12 @@ NOT_PROVED = [
     "non-broadcastable mismatches",
     "logsumexp / logmeanexp theorems assume non-empty input without NaN (over the reals); inputs containing +inf or only "
     "-inf return NaN in the implementation (inf - inf) and are outside the stated domain (finite log-domain inputs); "
-    "logsumexp(&[]) returns NaN (max of no element is NaN) where the definition gives ln 0 = -inf: FINDING PROPOSAL "
-    "key=red:logsumexp:empty (the oracle reports it as soon as the key is listed in known_findings.txt or the code is changed)",
+    "the empty slice: logsumexp(&[]) = f64::NEG_INFINITY is the guard of the repaired function (F55), theorem "
+    "logsumexpE_nil and an unconditional oracle check; logmeanexp(&[]) is undefined (0/0) and not judged",
     "the correspondence between the Rust text of the impl / kernel-macro bodies and the hand-written model functions "
     "(runKern2, vbin, vs, sv, ...) is a full-text template match in the translator plus the bit-exact run, not a "
-    "source-generated Lean definition proved equal to the model (the rs2lean translator covers logsumexp, logmeanexp, prod, "
-    "norm, is_matrix, inf_norm; dot and max are substituted by name there)",
+    "source-generated Lean definition proved equal to the model (the rs2lean translator covers logsumexp with its empty guard, logmeanexp, "
+    "prod, norm, is_matrix, inf_norm, and sum / dot in SrcC04Mut; inside the other functions dot and max are substituted by name)",
 ]
 TRUSTED = [
     "tools/cv/c04.py EXTRACT: textual macro_rules! expander producing Generated/C04Wiring.lean from vops.rs, vec.rs, matrix.rs, "
@@ -530,8 +531,10 @@ TRUSTED = [
     "tail loop `(chunks*8)..n` - likewise Neg, makefn_matops! and the map methods; anything else is an extraction alarm "
     "(VIOLATION).  That these templates mean what the model says is a reading of Rust text, not a proof; the behaviour is "
     "additionally tied bit for bit at every length.  utils::sum / utils::dot: default-feature block compared in full with the "
-    "text Cv.sum8 / Cv.dot8 were written from (a different spelling is a NOTE: correspondence-only for that run); they are not "
-    "in the rs2lean translator table (index loops with 8-term accumulations), nor are the vops kernel macros",
+    "text Cv.sum8 / Cv.dot8 were written from (a different spelling is a NOTE: correspondence-only for that run); the "
+    "functions themselves are regenerated and proved equal to Cv.sum8 / Cv.dot8 in Props/SrcTieC04Mut.lean (sum_eq, dot_eq; "
+    "translator owner, wired into this check by the lead through srctie.wire_mut); the vops kernel macros are not in the "
+    "translator table (macro_rules! instances)",
     "@[extern \"hypot\"] Cv.hypotF (Model/VopsScalar.lean) and @[extern \"log1p\"/\"expm1\"] (Model/Scalar.lean): the C functions of "
     "the glibc both executables link; used only by the Float driver, never by a theorem",
     "element operators and scalar methods are IEEE/libm operations on f64, one per position (compared bit for bit with the "
@@ -552,7 +555,8 @@ ASSUMPTIONS = [
     "logsumexp_error / logmeanexp_error assume a relative-error exp (false for f64 once x - max < -745: the term underflows; only "
     "f64_logsumexp_note with spread max - min <= 700 and n <= 10000 applies to f64 as stated) and do not cover overflow of "
     "v - xmax for inputs near +-f64::MAX of opposite signs; the oracle ranges are chosen inside these provisos",
-    "logsumexp / logmeanexp: non-empty input without NaN and without infinities (see the finding proposal red:logsumexp:empty)",
+    "logsumexp / logmeanexp value theorems: non-empty input without NaN and without infinities (the empty slice is the separate "
+    "guard theorem logsumexpE_nil)",
 ]
 OPS = ["add", "sub", "mul", "div"]
 MAPS = ["ln", "ln_1p", "log10", "log2", "exp", "exp2", "exp_m1", "sin", "cos", "tan", "sinh", "cosh", "tanh", "asin",
@@ -978,7 +982,7 @@ def corpus():
         "powi 3 %s" % V([1.1 * i for i in range(1, 18)]), "scali 3 %s" % V([1.1 * i for i in range(1, 18)])[2:],
         "powi 2 %s" % V([1.1 * i for i in range(1, 8)]), "scali 2 %s" % V([1.1 * i for i in range(1, 8)])[2:],
         # log-sum-exp far outside the exp range
-        "red logsumexp free v 0", "red logsumexp meth v 0",     # finding proposal red:logsumexp:empty (NaN, definition: -inf)
+        "red logsumexp free v 0", "red logsumexp meth v 0",     # F55 (fixed): was NaN, must be -inf
         "red logsumexp free %s" % V([1e4, 1e4 - 1.0, -1e4]), "red logmeanexp meth %s" % V([-1e4, -1e4 + 2.0]),
         # sums of finite exponentials that overflow / underflow without the max-shift (seeded change C04d)
         "red logsumexp free %s" % V([708.9] * 3), "red logsumexp meth %s" % V([708.0] * 7), "red logsumexp free %s" % V([705.0] * 200),
@@ -1173,14 +1177,7 @@ def note(name, err, bound):
             OBS[name] = r
 
 
-EMPTY_LSE_KEY = "red:logsumexp:empty"
-
-
-def EMPTY_LSE_REPORTED():
-    """finding proposal (review B6): reported once the lead has listed the key (then it prints KNOWN-FINDING), so that the
-    proposal does not turn every run into a VIOLATION before the decision; a code fix returning -inf passes either way"""
-    from .common import load_known
-    return EMPTY_LSE_KEY in load_known(ID)
+EMPTY_LSE_KEY = "red:logsumexp:empty"   # F55 (fixed be4665b): logsumexp(&[]) must be f64::NEG_INFINITY - regression guard
 
 
 def check_reduction(name, xs, got_tok, n_nominal=None):
@@ -1273,8 +1270,9 @@ def check_reduction(name, xs, got_tok, n_nominal=None):
         note("prod", err, bound)
         return None if err <= bound else "|prod - exact| / |exact| = %.3e exceeds gamma_n (n=%d)" % (float(err / abs(exact)), n)
     if name in ("logsumexp", "logmeanexp"):
-        if n == 0 and name == "logsumexp" and got_tok != f2h(-INF) and EMPTY_LSE_REPORTED():
-            return "logsumexp of the empty slice is %s; the definition ln(sum over no element) = ln 0 gives -inf" % got_tok
+        if n == 0 and name == "logsumexp":
+            return None if got_tok == f2h(-INF) else (
+                "logsumexp of the empty slice is %s; the definition ln(sum over no element) = ln 0 gives -inf (fff0000000000000)" % got_tok)
         if n == 0 or not finite(xs):
             return None
         import mpmath
@@ -1540,3 +1538,8 @@ NOT_PROVED = [x for x in NOT_PROVED if not any(k in str(x) for k in ('rounding o
 from . import srctie
 srctie.wire_loops(globals(), 'C04')
 PROOF_MODULES = PROOF_MODULES + ['Compute.Lemmas.SrcLoops']
+
+# --- source tie, the 8-way kernels (translator: utils::sum and utils::dot regenerated from /repo/src into Generated/SrcC04Mut.lean and proved
+# equal to Cv.sum8 / Cv.dot8 - the association every float-level theorem is about - in Props/SrcTieC04Mut.lean)
+from . import srctie
+srctie.wire_mut(globals(), 'C04')
